@@ -987,6 +987,26 @@ fn run(v: &Value) -> Result<String, String> {
                                 return Err(format!("an emission route differs from to_vec on a sink accepting {max} bytes per write (q={ql}, b={bl}): write_to {} bytes, write_message {} bytes, streaming {} bytes, expected {}", s1.out.len(), s2.out.len(), s3.out.len(), expect.len()));
                             }
                         }
+                        // the numeric-slice writers: whatever the incoming header says, the frame is the builder's frame for the same slice
+                        if ql <= 3 && bl <= 2 {
+                            let data: Vec<u32> = (0..(bl as u32 * 3)).map(|i| i.wrapping_mul(2654435761)).collect();
+                            let built = repe::Message::builder().id(h.id).query_bytes(q.clone()).query_format_code(h.query_format).body_typed_slice(&data).build();
+                            let mut hh = h; hh.query_length = 0; hh.body_length = 0; hh.length = 0;
+                            let mut streamed = Vec::new();
+                            repe::write_message_typed_slice(&mut streamed, hh, &q, &data).map_err(|e| e.to_string())?;
+                            let pm = repe::Message::from_slice_exact(&streamed).map_err(|e| format!("write_message_typed_slice emitted an unparsable frame (incoming body_format {}): {e}", h.body_format))?;
+                            if pm.header.body_format != built.header.body_format || pm.body != built.body || pm.query != built.query || pm.header.id != h.id {
+                                return Err(format!("write_message_typed_slice with an incoming header body_format={} emitted body_format={} ({} body bytes); the builder route emits body_format={} ({} body bytes)", h.body_format, pm.header.body_format, pm.body.len(), built.header.body_format, built.body.len()));
+                            }
+                            let cdata: Vec<repe::Complex<f32>> = (0..bl).map(|i| repe::Complex { re: i as f32, im: -(i as f32) }).collect();
+                            let cbuilt = repe::Message::builder().id(h.id).query_bytes(q.clone()).body_complex_slice(&cdata).build();
+                            let mut cstreamed = Vec::new();
+                            repe::write_message_complex_slice(&mut cstreamed, hh, &q, &cdata).map_err(|e| e.to_string())?;
+                            let cpm = repe::Message::from_slice_exact(&cstreamed).map_err(|e| format!("write_message_complex_slice emitted an unparsable frame: {e}"))?;
+                            if cpm.header.body_format != cbuilt.header.body_format || cpm.body != cbuilt.body {
+                                return Err(format!("write_message_complex_slice with an incoming header body_format={} emitted body_format={}; the builder route emits {}", h.body_format, cpm.header.body_format, cbuilt.header.body_format));
+                            }
+                        }
                         let mut a = Vec::new();
                         rt.block_on(repe::async_io::write_message_async(&mut a, &m)).map_err(|e| e.to_string())?;
                         if a != expect { return Err("write_message_async differs from to_vec".into()); }
@@ -1874,6 +1894,170 @@ fn run(v: &Value) -> Result<String, String> {
             rt.shutdown_background();
             outcome?;
             Ok(format!("{cases} saturation scenarios held (caps 1..3, every release order, return/fail/panic mixes)"))
+        }
+        "client_batch_alignment" => {
+            // Bounded stand-in for C04's batch clause: batch_json / batch_json on the async client return, at position i,
+            // the answer to request i, for batch sizes below, at and above the worker cap, against a server that answers
+            // in reversed pairs (so arrival order never matches request order).
+            use std::io::Write as _;
+            let sizes: Vec<usize> = v.get("sizes").and_then(|x| x.as_array()).map(|a| a.iter().map(|x| x.as_u64().unwrap() as usize).collect()).unwrap_or(vec![1, 2, 3, 63, 64, 65, 67, 101, 257]);
+            let listener = std::net::TcpListener::bind("127.0.0.1:0").map_err(|e| e.to_string())?;
+            let addr = listener.local_addr().unwrap();
+            std::thread::spawn(move || {
+                for conn in listener.incoming() {
+                    let Ok(stream) = conn else { break };
+                    std::thread::spawn(move || {
+                        let mut reader = std::io::BufReader::new(stream.try_clone().unwrap());
+                        let mut writer = std::io::BufWriter::new(stream);
+                        let mut held: Option<repe::Message> = None;
+                        let _ = reader.get_ref().set_read_timeout(Some(std::time::Duration::from_millis(50)));
+                        loop {
+                            match repe::read_message(&mut reader) {
+                                Ok(req) => {
+                                    if req.header.notify != 0 { continue; }
+                                    let resp = repe::Message::builder().id(req.header.id).query_bytes(req.query.clone()).body_json(&serde_json::json!({"path": req.query_utf8()})).unwrap().build();
+                                    match held.take() {
+                                        None => held = Some(resp),
+                                        Some(first) => { let _ = repe::write_message(&mut writer, &resp); let _ = repe::write_message(&mut writer, &first); let _ = writer.flush(); }
+                                    }
+                                }
+                                Err(repe::RepeError::Io(e)) if matches!(e.kind(), std::io::ErrorKind::WouldBlock | std::io::ErrorKind::TimedOut) => {
+                                    // nothing more is coming for now: release a response held back for pairing
+                                    if let Some(first) = held.take() { let _ = repe::write_message(&mut writer, &first); let _ = writer.flush(); }
+                                }
+                                Err(_) => break,
+                            }
+                        }
+                    });
+                }
+            });
+            let rt = tokio::runtime::Builder::new_multi_thread().worker_threads(2).enable_all().build().unwrap();
+            let mut cases = 0;
+            for &n in &sizes {
+                let requests: Vec<(String, serde_json::Value)> = (0..n).map(|i| (format!("/r/{i}"), serde_json::json!({"i": i}))).collect();
+                let client = repe::Client::connect(addr).map_err(|e| e.to_string())?;
+                let out = client.batch_json_with_timeout(requests.clone(), std::time::Duration::from_secs(20));
+                if out.len() != n { return Err(format!("blocking batch of {n} returned {} results", out.len())); }
+                for (i, r) in out.iter().enumerate() {
+                    match r { Ok(v) if v["path"] == serde_json::json!(format!("/r/{i}")) => {}, other => return Err(format!("blocking batch of {n}: slot {i} holds {other:?}; it must hold the answer to request {i} (/r/{i})")) }
+                }
+                let aout = rt.block_on(async { let c = repe::AsyncClient::connect(addr).await.map_err(|e| e.to_string())?; Ok::<_, String>(c.batch_json_with_timeout(requests.clone(), std::time::Duration::from_secs(20)).await) })?;
+                if aout.len() != n { return Err(format!("async batch of {n} returned {} results", aout.len())); }
+                for (i, r) in aout.iter().enumerate() {
+                    match r { Ok(v) if v["path"] == serde_json::json!(format!("/r/{i}")) => {}, other => return Err(format!("async batch of {n}: slot {i} holds {other:?}; it must hold the answer to request {i} (/r/{i})")) }
+                }
+                cases += 2;
+            }
+            rt.shutdown_background();
+            Ok(format!("{cases} batches aligned (sizes {sizes:?}, blocking and async)"))
+        }
+        "fleet_refused_then_up" => {
+            // Stand-in for C19 (real reconnect): the node is not listening when the call starts (connection refused) and
+            // comes up 100 ms later; with max_attempts 6 and 300 ms between attempts the call must succeed, and the
+            // refusal must be what a single-attempt call reports.
+            use std::time::Duration;
+            let use_async = v.get("async").and_then(|x| x.as_bool()).unwrap_or(false);
+            let probe = std::net::TcpListener::bind("127.0.0.1:0").map_err(|e| e.to_string())?;
+            let port = probe.local_addr().unwrap().port();
+            drop(probe);
+            let cfg = || repe::NodeConfig::new("127.0.0.1", port).unwrap().with_name("n").unwrap().with_timeout(Duration::from_millis(800)).unwrap();
+            let rt = tokio::runtime::Builder::new_multi_thread().worker_threads(2).enable_all().build().unwrap();
+            // (1) nobody listens, one attempt: the error is the refusal itself
+            let once = repe::FleetOptions { retry_policy: repe::RetryPolicy { max_attempts: 1, delay: Duration::from_millis(10) }, ..Default::default() };
+            let first = if use_async { let f = repe::AsyncFleet::with_options(vec![cfg()], once).map_err(|e| e.to_string())?; rt.block_on(f.call_json("n", "/ping", Some(&serde_json::json!(1)))).map_err(|e| e.to_string())?.into_result() }
+                        else { let f = repe::Fleet::with_options(vec![cfg()], once).map_err(|e| e.to_string())?; f.call_json("n", "/ping", Some(&serde_json::json!(1))).map_err(|e| e.to_string())?.into_result() };
+            match &first {
+                Err(repe::RepeError::Io(e)) if e.kind() == std::io::ErrorKind::ConnectionRefused => {}
+                other => { if other.is_ok() { return Ok("setup: another process took the probe port; scenario skipped".into()); } return Err(format!("a call to a node that is not listening reported {other:?}; expected the connection-refused I/O error (a retryable transport failure)")); }
+            }
+            // (2) the node comes up while the retry loop is running
+            let up = std::thread::spawn(move || {
+                std::thread::sleep(Duration::from_millis(100));
+                let Ok(listener) = std::net::TcpListener::bind(("127.0.0.1", port)) else { return false };
+                std::thread::spawn(move || {
+                    for conn in listener.incoming() {
+                        let Ok(mut s) = conn else { break };
+                        std::thread::spawn(move || { while let Ok(req) = repe::read_message(&mut s) { let m = repe::Message::builder().id(req.header.id).body_json(&serde_json::json!("pong")).unwrap().build(); if repe::write_message(&mut s, &m).is_err() { break; } } });
+                    }
+                });
+                true
+            });
+            let opts = repe::FleetOptions { retry_policy: repe::RetryPolicy { max_attempts: 6, delay: Duration::from_millis(300) }, ..Default::default() };
+            let r = if use_async { let f = repe::AsyncFleet::with_options(vec![cfg()], opts).map_err(|e| e.to_string())?; rt.block_on(f.call_json("n", "/ping", Some(&serde_json::json!(1)))).map_err(|e| e.to_string())?.into_result() }
+                    else { let f = repe::Fleet::with_options(vec![cfg()], opts).map_err(|e| e.to_string())?; f.call_json("n", "/ping", Some(&serde_json::json!(1))).map_err(|e| e.to_string())?.into_result() };
+            if !up.join().unwrap_or(false) { return Ok("setup: could not re-bind the probe port; scenario skipped".into()); }
+            rt.shutdown_background();
+            match r { Ok(_) => Ok("refused, then up: the retry loop reached the node".into()), Err(e) => Err(format!("the node came up 100 ms into a retry window of 6 attempts x 300 ms, yet the call failed with `{e}`: a refused connection was not retried")) }
+        }
+        "ws_outbound_limit_sweep" => {
+            // Bounded stand-in for C17 on real sockets: (a) a WebSocketClient with assumed_peer_frame_limit = L sends a
+            // request/notify iff its framed size (48 + query + body) is <= L, fails locally with MessageTooLarge
+            // otherwise, and stays usable; (b) a WebSocketServer with the same assumption answers a request whose
+            // response would exceed L with an error response carrying the same id that itself fits L; a raw peer records
+            // the size of every binary message on the wire.
+            use repe::tokio_tungstenite::tungstenite::Message as WsMessage;
+            use futures_util::{SinkExt, StreamExt};
+            use std::time::Duration;
+            let rt = tokio::runtime::Builder::new_multi_thread().worker_threads(2).enable_all().build().unwrap();
+            let out: Result<String, String> = rt.block_on(async {
+                let mut cases = 0usize;
+                for limit in [1024usize, 4096, 65536] {
+                    // ---- (a) client side ----
+                    let listener = tokio::net::TcpListener::bind("127.0.0.1:0").await.map_err(|e| e.to_string())?;
+                    let addr = listener.local_addr().unwrap();
+                    let (seen_tx, mut seen_rx) = tokio::sync::mpsc::unbounded_channel::<usize>();
+                    tokio::spawn(async move {
+                        let Ok((stream, _)) = listener.accept().await else { return };
+                        let Ok(mut ws) = repe::tokio_tungstenite::accept_async(stream).await else { return };
+                        while let Some(Ok(frame)) = ws.next().await { if let WsMessage::Binary(b) = frame { let _ = seen_tx.send(b.len()); } }
+                    });
+                    let client = repe::WebSocketClient::connect_with_limits(&format!("ws://{addr}/repe"), repe::WebSocketLimits::default().with_assumed_peer_frame_limit(Some(limit))).await.map_err(|e| e.to_string())?;
+                    let path = "/sink";
+                    let mut expect = Vec::new();
+                    for total in [limit - 2, limit - 1, limit, limit + 1, limit + 2, limit + 47, limit + 48, limit + 48 + path.len(), limit + 49 + path.len(), 2 * limit] {
+                        cases += 1;
+                        let body = vec![0xabu8; total - 48 - path.len()];
+                        let r = client.notify_with_formats(path, 1, Some(&body), 0).await;
+                        if total <= limit { r.map_err(|e| format!("limit {limit}: a {total}-byte notify was refused: {e}"))?; expect.push(total); }
+                        else { match r { Err(repe::RepeError::MessageTooLarge { size, limit: l }) if size == total && l == limit => {}, other => return Err(format!("limit {limit}: a notify of {total} framed bytes must fail locally with MessageTooLarge {{ size: {total}, limit: {limit} }}; got {other:?}")) } }
+                    }
+                    client.notify_with_formats(path, 1, Some(b"tail"), 0).await.map_err(|e| format!("limit {limit}: the connection was not usable after local refusals: {e}"))?;
+                    let tail = 48 + path.len() + 4;
+                    expect.push(tail);
+                    let mut wire = Vec::new();
+                    loop {
+                        let s = tokio::time::timeout(Duration::from_secs(10), seen_rx.recv()).await.map_err(|_| format!("limit {limit}: the peer never saw the trailing notify"))?.ok_or("peer task died")?;
+                        wire.push(s);
+                        if s == tail { break; }
+                    }
+                    if wire != expect { return Err(format!("limit {limit}: the peer saw binary messages of sizes {wire:?}; expected exactly {expect:?} (nothing over the limit may reach the wire)")); }
+                    // ---- (b) server side ----
+                    let router = repe::Router::new().with_json("/blob", |v| { let n = v["n"].as_u64().unwrap_or(0) as usize; Ok(serde_json::json!("x".repeat(n))) });
+                    let listener = tokio::net::TcpListener::bind("127.0.0.1:0").await.map_err(|e| e.to_string())?;
+                    let addr = listener.local_addr().unwrap();
+                    let shared = repe::WebSocketServer::new(router).with_limits(repe::WebSocketLimits::default().with_assumed_peer_frame_limit(Some(limit))).into_shared();
+                    let srv = tokio::spawn(async move { loop { let Ok((stream, _)) = listener.accept().await else { break }; let shared = shared.clone(); tokio::spawn(async move { if let Ok(ws) = repe::WebSocketServer::accept(stream, "/repe").await { let _ = shared.serve_connection(ws).await; } }); } });
+                    let (mut ws, _) = repe::tokio_tungstenite::connect_async(format!("ws://{addr}/repe")).await.map_err(|e| e.to_string())?;
+                    // response framed size = 48 + len("/blob") + (n + 2 quotes)
+                    for (id, total) in [limit - 1, limit, limit + 1, limit + 200, 3 * limit].into_iter().enumerate() {
+                        cases += 1;
+                        let n = total - 48 - 5 - 2;
+                        let req = repe::Message::builder().id(id as u64 + 1).query_str("/blob").query_format(repe::QueryFormat::JsonPointer).body_json(&serde_json::json!({"n": n})).unwrap().build();
+                        ws.send(WsMessage::Binary(req.to_vec().into())).await.map_err(|e| e.to_string())?;
+                        let frame = tokio::time::timeout(Duration::from_secs(10), ws.next()).await.map_err(|_| format!("limit {limit}: no answer to request {}", id + 1))?.ok_or("closed")?.map_err(|e| e.to_string())?;
+                        let WsMessage::Binary(bytes) = frame else { return Err("non-binary answer".into()) };
+                        let m = repe::Message::from_slice_exact(&bytes).map_err(|e| format!("limit {limit}: unparsable answer: {e}"))?;
+                        if bytes.len() > limit { return Err(format!("limit {limit}: the server sent a {}-byte message for a response of {total} framed bytes", bytes.len())); }
+                        if m.header.id != id as u64 + 1 { return Err(format!("limit {limit}: answer id {} for request {}", m.header.id, id + 1)); }
+                        if total <= limit { if m.header.ec != 0 || bytes.len() != total { return Err(format!("limit {limit}: a response of {total} framed bytes (within the limit) was not delivered unchanged: ec={} size={}", m.header.ec, bytes.len())); } }
+                        else if m.header.ec == 0 { return Err(format!("limit {limit}: a response of {total} framed bytes was answered with ec=0 and {} bytes", bytes.len())); }
+                    }
+                    srv.abort();
+                }
+                Ok(format!("{cases} outbound-limit cases held (limits 1024, 4096, 65536; client and server side)"))
+            });
+            rt.shutdown_background();
+            out
         }
         other => panic!("unknown replay entry `{other}`"),
     }
